@@ -18,7 +18,7 @@ RULE = ('limit_df on synthetic tiled cycle tables of both centrings, fs in {1, 1
         'grids with limits None / on-grid / off-grid; split_samples_df / drop_samples_df on tables with mixed columns; '
         'flatten_dfs on 1-D and 2-D lists of tables (incl. empty tables) with matching and mismatching label counts. '
         'non-trivial = a window that keeps some but not all rows / samples, or >= 2 tables flattened')
-ASSUMPTIONS = ['tables are tiled (consecutive rows share their side extremum) with increasing indices']
+ASSUMPTIONS = ['each row is a cycle (last side <= centre <= next side); rows are tiled and chronological in most cases, stacked or shuffled in the rest']
 
 
 def stream_of(c):
@@ -45,6 +45,11 @@ def cases(rng, tier):
     n = 1500 if tier == 'quick' else 15000
     for _ in range(n):
         rows = _table(rng)
+        order = rng.choice(['sorted', 'sorted', 'sorted', 'stacked', 'shuffled'])
+        if order == 'stacked':          # e.g. two recordings stacked by flatten_dfs and then windowed
+            rows = rows + _table(rng)
+        elif order == 'shuffled':       # e.g. a table re-sorted by a feature
+            rng.shuffle(rows)
         fs = rng.choice([1.0, 100.0, 250.0, 512.0, 30.0])
         bounds = sorted(set([r[1] for r in rows] + [r[2] for r in rows])) or [10]
 
